@@ -1,7 +1,7 @@
 (* Driver entry for the designer front-end model (C04, C05, C15). *)
 From Coq Require Import List String Ascii Arith Bool.
 From Coq Require Import ZArith.
-From PC Require Import Base.Sexp Comp.Syntax Design.Designer Design.DesignerProofs Design.TemplateProofs SSM.Contract SSM.Search SSM.ValidProofs Run.RComp.
+From PC Require Import Base.Sexp Comp.Syntax Design.Designer Design.DesignerProofs Design.TemplateProofs Design.DGraph Design.DenoteTie SSM.Contract SSM.Search SSM.ValidProofs Run.RComp.
 Import ListNotations.
 Local Open Scope string_scope.
 
@@ -15,6 +15,21 @@ Definition closed_flag (ls : list pline) (so : bool) : bool :=
   match load_spec ls pspec0 with
   | OK p => match seed p so with OK (_, g) => graph_ok g | Err _ => true end
   | Err _ => true
+  end.
+
+(* hypotheses of the denotation theorems (strand layout): the graph seed returns is the declarative
+   graph, the loaded specification is well formed, the node encoding is increasing and links join declared nodes *)
+Definition denote_flags (ls : list pline) : list bool :=
+  match load_spec ls pspec0 with
+  | OK p => match seed p false with
+            | OK (lay, g) => [same_graph p lay g; spec_okb p; dgraph_ok p lay]
+            | Err _ => [] end
+  | Err _ => []
+  end.
+Definition run_denote (req : sexp) : sexp :=
+  match req with
+  | Li [lines] => match dL d_pline lines with Some ls => sL sB (denote_flags ls) | None => bad_request end
+  | _ => bad_request
   end.
 
 Definition run_design (req : sexp) : sexp :=
